@@ -138,16 +138,33 @@ def random_doc(rng, depth=0):
     return [random_doc(rng, depth + 1) for _ in range(rng.randint(1, 3))]
 
 
-def random_yaml(rng):
+def _dump_yaml(d):
     from ruamel.yaml import YAML
     import io
-    d = {"k%d" % i: random_doc(rng, 1) for i in range(rng.randint(1, 5))}
-    d["zz"] = "end"
     buf = io.StringIO()
     y = YAML()
     y.default_flow_style = False
     y.dump(d, buf)
     return buf.getvalue()
+
+
+def random_data(rng):
+    d = {"k%d" % i: random_doc(rng, 1) for i in range(rng.randint(1, 5))}
+    d["zz"] = "end"
+    return d
+
+
+def random_yaml(rng):
+    return _dump_yaml(random_data(rng))
+
+
+def same_shape(rng, d):
+    """A document of the same shape (so that it merges without conflict) with other leaves."""
+    if isinstance(d, dict):
+        return {k: same_shape(rng, v) for k, v in d.items() if rng.random() < 0.8}
+    if isinstance(d, list):
+        return [same_shape(rng, v) for v in d if not isinstance(v, (dict, list))] + ["rhs"]
+    return d + "'" if rng.random() < 0.5 else "other"
 
 
 def scenarios(ctx, rng):
@@ -160,7 +177,10 @@ def scenarios(ctx, rng):
         for i in range(40):
             set_docs.append(("rand%d" % i, "t.yaml", random_yaml(rng), ["-g", "zz", "-a", "changed%d" % i], False))
         for i in range(25):
-            merge_docs.append(("rand%d" % i, "l.yaml", random_yaml(rng), random_yaml(rng).replace("zz: end", "yy: rhs"), []))
+            lhs = random_data(rng)
+            rhs = same_shape(rng, lhs)
+            rhs["yy"] = "rhs"
+            merge_docs.append(("rand%d" % i, "l.yaml", _dump_yaml(lhs), _dump_yaml(rhs), []))
     for bak in B:
         for stale in B:
             bflag = ["-b"] if bak else []
@@ -226,9 +246,9 @@ def scenarios(ctx, rng):
 def fault_variants(ev, sc):
     """The ways the k-th call can fail, from the kind of call it is."""
     if ev["op"] == "copy2":
-        return [{"kind": "fail", "eff": e} for e in ("none", "empty", "partial")]
+        return [{"kind": "fail", "eff": e} for e in ("none", "empty", "partial", "full")]
     if ev["op"] == "dump":
-        v = [{"kind": "fail", "eff": e} for e in ("none", "partial")]
+        v = [{"kind": "fail", "eff": e} for e in ("none", "partial", "full")]
         if sc["tool"] == "set" and not sc["o"]["json"]:
             v += [{"kind": "assert", "eff": e} for e in ("none", "partial")]
         return v
@@ -365,7 +385,8 @@ def validate(ctx, recs, name):
 def binding_selftest(ctx, good):
     """Corrupt one recorded field at a time; Trace_YSave must reject every corrupted record."""
     muts = []
-    full = next((r for r in good if r["o"]["tool"] == "set" and r["o"]["bak"] and r["code"] == "ok" and len(r["tr"]) > 8), None)
+    full = next((r for r in good if r["o"]["tool"] == "set" and r["o"]["bak"] and r["o"]["stale"] and not r["o"]["json"]
+                 and r["code"] == "ok" and len(r["tr"]) > 8), None)
     if full is None:
         raise core.MachineryError("no complete yaml-set --backup trace to corrupt")
 
@@ -408,15 +429,134 @@ TOOL_MAIN = {"set": "yamlpath.commands.yaml_set", "merge_out": "yamlpath.command
              "merge_ow": "yamlpath.commands.yaml_merge", "rotate": "yamlpath.commands.eyaml_rotate_keys"}
 
 
+_RET = re.compile(r"\)\s+= (-?\d+|\?)(?: (E[A-Z0-9]+) \([^)]*\))?( \(INJECTED\))?\s*$")
+_STR = re.compile(r'"((?:[^"\\\\]|\\\\.)*)"')
+
+
+def parse_strace(text):
+    """strace -f -o log lines -> [{name, fd, path, flags, ok, injected}] (unfinished/resumed pairs joined)."""
+    calls = []
+    pending = {}
+    status = None
+    for line in text.splitlines():
+        m = re.match(r"^(\d+)\s+(.*)$", line)
+        if not m:
+            continue
+        pid, rest = m.group(1), m.group(2)
+        if rest.startswith("+++ exited with"):
+            status = status if status is not None else int(rest.split()[3])
+            continue
+        if rest.endswith("<unfinished ...>"):
+            pending[pid] = rest[:-len("<unfinished ...>")]
+            continue
+        r = re.match(r"^<\.\.\. (\w+) resumed>(.*)$", rest)
+        if r:
+            rest = pending.pop(pid, r.group(1) + "(") + r.group(2)
+        c = re.match(r"^(\w+)\((.*)$", rest)
+        if not c:
+            continue
+        ret = _RET.search(rest)
+        if not ret:
+            continue
+        name, args = c.group(1), c.group(2)
+        fdm = re.match(r"^(\d+)[,)]", args)
+        pm = _STR.search(args)
+        value = ret.group(1)
+        calls.append({"name": name, "fd": int(fdm.group(1)) if fdm else None, "path": pm.group(1) if pm else None,
+                      "flags": args, "ok": value not in ("-1", "?"), "ret": int(value) if value.lstrip("-").isdigit() else -1,
+                      "injected": bool(ret.group(3))})
+    return calls
+
+
+def visible_events(calls, paths, final):
+    """Abstract the system calls on the three paths into the visible events of Trace_YSaveSys."""
+    role_of = {os.path.abspath(p): r for r, p in paths.items()}
+    fds = {}
+    ev = []
+
+    def end_group(g, close_ok):
+        if g["role"] == "backup":
+            ev.append({"op": "copy2", "role": "backup", "group": g, "close_ok": close_ok, "at": idx})
+        else:
+            if g["failed"]:
+                ev.append({"op": "dump", "role": g["role"], "res": "fail",
+                           "eff": {"EMPTY": "none", "NEW": "full"}.get(final[g["role"]], "partial")})
+            elif g["bytes"] > 0:
+                ev.append({"op": "dump", "role": g["role"], "res": "ok", "eff": "-"})
+            ev.append({"op": "close", "role": g["role"], "res": "ok" if close_ok else "fail", "eff": "-" if close_ok else "none"})
+
+    for idx, c in enumerate(calls):
+        n = c["name"]
+        if n in ("openat", "open", "creat") and c["path"] is not None:
+            role = role_of.get(os.path.abspath(c["path"]))
+            if role is None:
+                continue
+            writable = n == "creat" or "O_WRONLY" in c["flags"] or "O_RDWR" in c["flags"]
+            if not writable:
+                if c["ok"]:
+                    fds[c["ret"]] = None          # read-only descriptor: invisible
+                continue
+            if not c["ok"]:
+                ev.append({"op": "copy2" if role == "backup" else "open_w", "role": role, "res": "fail", "eff": "none"})
+                continue
+            fds[c["ret"]] = {"role": role, "bytes": 0, "failed": False}
+            if role != "backup":
+                ev.append({"op": "open_w", "role": role, "res": "ok", "eff": "-"})
+        elif n in ("write", "pwrite64", "writev", "sendfile", "copy_file_range", "ftruncate"):
+            g = fds.get(c["fd"])
+            if n == "copy_file_range":
+                m = re.match(r"^\d+, [^,]+, (\d+)", c["flags"])
+                g = fds.get(int(m.group(1))) if m else None
+            if g:
+                if c["ok"]:
+                    g["bytes"] += max(c["ret"], 0)
+                else:
+                    g["failed"] = True
+        elif n == "close":
+            g = fds.pop(c["fd"], None) if c["ok"] else fds.get(c["fd"])
+            if g:
+                if not c["ok"]:
+                    fds.pop(c["fd"], None)
+                end_group(g, c["ok"])
+        elif n in ("unlink", "unlinkat") and c["path"] is not None:
+            role = role_of.get(os.path.abspath(c["path"]))
+            if role:
+                ev.append({"op": "remove", "role": role, "res": "ok" if c["ok"] else "fail", "eff": "-" if c["ok"] else "none"})
+        elif n in ("rename", "renameat", "renameat2", "link", "linkat", "symlink", "symlinkat", "truncate"):
+            ev.append({"op": n, "role": "other", "res": "ok", "eff": "-"})      # not part of any modelled protocol
+    for g in fds.values():                  # descriptors never closed by the program
+        if g:
+            if g["role"] == "backup":
+                ev.append({"op": "copy2", "role": "backup", "group": g, "close_ok": False, "at": len(calls)})
+            elif g["failed"] or g["bytes"]:
+                ev.append({"op": "dump", "role": g["role"], "res": "fail" if g["failed"] else "ok",
+                           "eff": {"EMPTY": "none", "NEW": "full"}.get(final[g["role"]], "partial") if g["failed"] else "-"})
+    # the outcome of the copy as a whole (the Python call is not visible): it failed iff one of its system calls
+    # failed and the program did nothing afterwards
+    for i, e in enumerate(ev):
+        if "group" in e:
+            g = e.pop("group")
+            close_ok = e.pop("close_ok")
+            at = e.pop("at")
+            went_on = i + 1 < len(ev)
+            # the source descriptor of the copy is closed after the .bak: a failure there fails the (complete) copy
+            src_close_failed = any(c["name"] == "close" and not c["ok"] for c in calls[at + 1:at + 2])
+            if ((not g["failed"] and close_ok) or went_on) and not (src_close_failed and not went_on):
+                e.update(res="ok", eff="-")
+            else:
+                e.update(res="fail", eff={"absent": "none", "EMPTY": "empty", "ORIG": "full"}.get(final["backup"], "partial"))
+    return ev
+
+
 def _strace_run(job):
-    sc, inject, scratch = job
+    sc, inject, scratch, new = job
     d = os.path.join(scratch, "s%d" % os.getpid(), "run")
     shutil.rmtree(os.path.dirname(d), ignore_errors=True)
     os.makedirs(os.path.dirname(d))
     paths, pre, argv = saveobs.setup_dir(d, sc)
     before = saveobs.snapshot(d)
     log = os.path.join(os.path.dirname(d), "strace.log")
-    cmd = ["strace", "-f", "-o", log, "-e", "trace=" + STRACE_SYSCALLS, "-P", paths["target"], "-P", paths["backup"],
+    cmd = ["strace", "-f", "-s", "16", "-o", log, "-e", "trace=" + STRACE_SYSCALLS, "-P", paths["target"], "-P", paths["backup"],
            "-P", paths["output"]]
     if inject:
         cmd += ["-e", "inject=%s:error=%s:when=%d" % (inject["syscall"], inject["errno"], inject["when"])]
@@ -427,18 +567,19 @@ def _strace_run(job):
     p = subprocess.run(cmd + [sys.executable, "-c", code], stdin=subprocess.DEVNULL, stdout=subprocess.PIPE,
                        stderr=subprocess.PIPE, env=env, text=True, timeout=120)
     after = saveobs.snapshot(d)
-    calls = []
-    injected = False
+    text = ""
     if os.path.exists(log):
-        with open(log) as fh:
-            for line in fh:
-                m = re.match(r"^\d+\s+(\w+)\(", line)
-                if m:
-                    calls.append(m.group(1))
-                if "(INJECTED)" in line:
-                    injected = True
+        with open(log, errors="replace") as fh:
+            text = fh.read()
+    calls = parse_strace(text)
     tname, oname = sc["target"], sc.get("output") or "out.yaml"
     bname = tname + ".bak"
+    written = after.get(oname if sc["tool"] == "merge_out" else tname)
+    newb = new.encode("latin-1") if new is not None else (written if p.returncode == 0 else None)
+    rec = saveobs.Recorder(paths, pre, newb if newb is not None else b"\x00never", None)
+    fs = rec.classify()
+    vis = visible_events(calls, paths, fs)
+    vis.append({"op": "exit", "role": "?", "res": "ok" if p.returncode == 0 else "fail", "eff": "-"})
     facts = {"target_unchanged": after.get(tname) == pre, "backup_present": bname in after,
              "backup_is_preimage": after.get(bname) == pre,
              "backup_same_as_before": after.get(bname) == before.get(bname) and (bname in after) == (bname in before),
@@ -448,7 +589,9 @@ def _strace_run(job):
              "steps": [], "copied_at": None}
     shutil.rmtree(os.path.dirname(d), ignore_errors=True)
     return {"sid": sc["id"], "inject": inject, "status": p.returncode, "code": "ok" if p.returncode == 0 else "fail",
-            "stderr": p.stderr[-600:], "facts": facts, "calls": calls, "injected": injected}
+            "stderr": p.stderr[-600:], "facts": facts, "calls": [c["name"] for c in calls],
+            "injected": any(c["injected"] for c in calls), "vis": vis, "fs": fs,
+            "written": written.decode("latin-1") if (p.returncode == 0 and written is not None and new is None) else None}
 
 
 def judge_strace(sc, r):
@@ -473,23 +616,25 @@ def judge_strace(sc, r):
 
 def strace_layer(ctx, scs, pool):
     """Every syscall of the save sequence on the three paths fails in turn (ENOSPC / EIO)."""
-    pick = [sc for sc in scs if sc["doc"] in ("map", "anchors", "large", "flowroot", "maps", "json", "large", "string",
-                                              "cause:check", "cause:hash-into-list", "cause:parse-error")]
+    pick = [sc for sc in scs if sc["doc"] in ("map", "anchors", "large", "flowroot", "dotjson", "maps", "json", "multidoc", "single",
+                                              "string", "anchored", "nosecret", "cause:check", "cause:unmatched",
+                                              "cause:hash-into-list", "cause:anchor-stop", "cause:parse-error", "cause:bad-rhs")]
     scratch = ctx.path("strace")
-    base = list(pool.imap_unordered(_strace_run, [(sc, None, scratch) for sc in pick], chunksize=1))
+    base = list(pool.imap_unordered(_strace_run, [(sc, None, scratch, None) for sc in pick], chunksize=1))
     byid = {sc["id"]: sc for sc in pick}
     jobs = []
     for b in base:
         sc = byid[b["sid"]]
-        if sc["cause"]:
+        if sc["cause"] or b["code"] != "ok":
             continue
         for sysc in INJECT:
             n = b["calls"].count(sysc)
             for when in range(1, n + 1):
-                jobs.append((sc, {"syscall": sysc, "errno": "ENOSPC" if when % 2 else "EIO", "when": when}, scratch))
+                jobs.append((sc, {"syscall": sysc, "errno": "ENOSPC" if when % 2 else "EIO", "when": when}, scratch, b["written"]))
     res = base + list(pool.imap_unordered(_strace_run, jobs, chunksize=2))
     nviol = 0
     kinds = {}
+    recs = []
     for r in res:
         sc = byid[r["sid"]]
         if r["inject"]:
@@ -498,9 +643,42 @@ def strace_layer(ctx, scs, pool):
         for sig, desc in judge_strace(sc, r):
             nviol += 1
             ctx.violation(sig, desc, {"layer": "strace", "scenario": sc, "inject": r["inject"]})
+        recs.append({"id": len(recs), "o": sc["o"], "tr": r["vis"], "fs": r["fs"], "code": r["code"]})
+    # a corrupted record (backup copied after the target was opened for writing) must be rejected
+    full = next(x for x in recs if x["o"]["bak"] and x["code"] == "ok" and any(e["op"] == "copy2" for e in x["tr"]))
+    bad = copy.deepcopy(full)
+    ci = next(i for i, e in enumerate(bad["tr"]) if e["op"] == "copy2")
+    wi = next(i for i, e in enumerate(bad["tr"]) if e["op"] == "open_w")
+    bad["tr"].insert(wi, bad["tr"].pop(ci))
+    bad["id"] = len(recs)
+    rin, rout = ctx.path("syscall.records.json"), ctx.path("syscall.verdicts.json")
+    with open(rin, "w") as fh:
+        json.dump(recs + [bad], fh)
+    core.run_tlc(ctx, "Trace_YSaveSys", "Trace_YSaveSys.cfg", env={"RECORDS_IN": rin, "VERDICTS_OUT": rout}, workers=1,
+                 name="trace_syscall")
+    with open(rout) as fh:
+        ver = json.load(fh)
+    if len(ver) != len(recs) + 1:
+        raise core.MachineryError("Trace_YSaveSys returned %d verdicts for %d records" % (len(ver), len(recs) + 1))
+    if ver[-1]["ok"]:
+        raise core.MachineryError("syscall binding self-test: a trace with the backup copied after open_w was accepted")
+    drift = []
+    for r, x, v in zip(res, recs, ver):
+        if not v["ok"]:
+            sc = byid[r["sid"]]
+            drift.append({"scenario": "%s/%s %s" % (sc["tool"], sc["doc"], okey(sc["o"])), "inject": r["inject"], "why": v["why"],
+                          "far": v["far"], "trace": [proj([e]) for e in x["tr"]], "fs": x["fs"], "status": r["status"],
+                          "syscalls": r["calls"], "stderr": r["stderr"][-200:]})
+    if drift:
+        with open(ctx.path("syscall_drift.json"), "w") as fh:
+            json.dump(drift, fh, indent=1)
+        print("note: %d syscall-level traces are not behaviours of YSave (model drift, not a verdict): %s" % (
+            len(drift), ctx.path("syscall_drift.json")))
+    sample = next((x for r, x in zip(res, recs) if r["inject"] and r["inject"]["syscall"] == "write" and x["o"]["bak"]), None)
     return {"runs": len(res), "baseline_runs": len(base), "injected_runs": sum(1 for r in res if r["injected"]),
-            "injected_by_syscall": kinds, "violations": nviol,
-            "sample_syscalls": next((b["calls"] for b in base if byid[b["sid"]]["doc"] == "map" and byid[b["sid"]]["o"]["bak"]), [])[:40]}
+            "injected_by_syscall": kinds, "violations": nviol, "traces_validated": len(recs), "model_drift": len(drift),
+            "selftest_corrupted_trace_rejected": not ver[-1]["ok"],
+            "sample": {"o": sample["o"], "trace": [proj([e]) for e in sample["tr"]], "fs": sample["fs"]} if sample else None}
 
 
 # ---------------------------------------------------------------------------------------------
@@ -510,7 +688,7 @@ def run(ctx):
     saveobs.fake_eyaml()
     # ---- design level: complete exploration of the model, per-action coverage, emitted behaviours
     cases_f = ctx.path("behaviours.ndjson")
-    mc = core.run_tlc(ctx, "MC_YSave", "MC_YSave.cfg", env={"CASES_OUT": cases_f}, extra=("-coverage", "1"))
+    mc = core.run_tlc(ctx, "MC_YSave", "MC_YSave.cfg", env={"CASES_OUT": cases_f}, extra=("-coverage", "1"), workers=1)
     if mc["violated"]:
         raise core.MachineryError("MC_YSave: %s violated on the design as read from the code (log %s)" % (mc["violated"], mc["log"]))
     actions = parse_action_coverage(mc["stdout"])
@@ -551,6 +729,7 @@ def run(ctx):
     not_triggered = []
     observed_by_o = {}
     unchanged_touched = 0
+    natural_loss = []
     for sid in sorted(results):
         sc = byid[sid]
         for j, run in enumerate(results[sid]):
@@ -560,6 +739,9 @@ def run(ctx):
                     not_triggered.append("%s/%s" % (sc["tool"], sc["doc"]))
                 elif sc.get("pattern") and not re.search(sc["pattern"], run["stderr"]):
                     not_triggered.append("%s/%s (other message: %s)" % (sc["tool"], sc["doc"], run["stderr"][-120:]))
+            if sc["doc"].startswith("natural:") and not sc["o"]["bak"] and run["code"] == "fail" and not run["facts"]["target_unchanged"]:
+                natural_loss.append("%s %s: status %s, target left %s (no --backup: outside the statement)" % (
+                    " ".join(sc["argv"][1:-1]), sc["doc"], run["status"], run["fs"]["target"]))
             if not sc["o"]["changed"] and (run["facts"]["new_names"] or not run["facts"]["target_unchanged"]
                                            or not run["facts"]["backup_same_as_before"]):
                 unchanged_touched += 1
@@ -578,14 +760,20 @@ def run(ctx):
         for r, v in zip(part, ver):
             if not v["ok"]:
                 sc = byid[r["sid"]]
-                drift.append({"scenario": "%s/%s %s" % (sc["tool"], sc["doc"], okey(sc["o"])), "fault": results[r["sid"]][r["run"]]["fault"],
+                drift.append({"rid": r["id"], "scenario": "%s/%s %s" % (sc["tool"], sc["doc"], okey(sc["o"])), "fault": results[r["sid"]][r["run"]]["fault"],
                               "why": v["why"], "at": v["at"], "pc": v["pc"], "spec_would_accept": v["enabled"],
                               "trace": [proj([e]) + " -> " + json.dumps(e["post"], sort_keys=True) for e in r["tr"]]})
     if drift:
         with open(ctx.path("model_drift.json"), "w") as fh:
             json.dump(drift, fh, indent=1)
         print("note: %d recorded traces are not behaviours of YSave (model drift, not a verdict): %s" % (len(drift), ctx.path("model_drift.json")))
-    good = [r for r in recs if True]
+    rejected = {d["rid"] for d in drift}
+    good = [r for r in recs if r["id"] not in rejected]
+    # corrupt a trace recorded from the code; when the code under test no longer produces an accepted complete
+    # yaml-set --backup trace, fall back to the same behaviour as emitted by TLC
+    if not any(r["o"]["tool"] == "set" and r["o"]["bak"] and r["o"]["stale"] and not r["o"]["json"] and r["code"] == "ok"
+               for r in good):
+        good = [{"id": 0, "o": c["o"], "tr": c["tr"], "fs": c["fs"], "code": c["code"]} for c in model]
     selftest = binding_selftest(ctx, good)
 
     # ---- S->C: every behaviour of the model is realised by the code
@@ -613,7 +801,7 @@ def run(ctx):
     distinct = len({(okey(byid[r["sid"]]["o"]), proj(r["tr"])) for r in recs})
     sample = next(r for r in recs if r["o"]["tool"] == "set" and r["o"]["bak"] and r["o"]["stale"] and r["code"] == "fail"
                   and any(e["op"] == "dump" and e["res"] == "fail" for e in r["tr"]))
-    ctx.informational += unchanged_touched
+    ctx.informational += unchanged_touched + len(natural_loss)
     ctx.coverage.update({
         "evaluations": nruns + (strace_ev["runs"] if strace_ev else 0),
         "scenarios": len(scs),
@@ -635,7 +823,9 @@ def run(ctx):
         "defective_designs_rejected": defects,
         "binding_selftest": selftest,
         "cause_not_triggered": not_triggered[:10],
+        "cause_not_triggered_count": len(not_triggered),
         "unchanged_but_touched": unchanged_touched,
+        "informational_uninjected_dump_failure_without_backup": natural_loss[:2],
         "strace_layer": strace_ev,
         "exhaustive": True,
         "samples": [{"scenario": byid[sample["sid"]]["argv"], "o": sample["o"], "trace": [proj([e]) for e in sample["tr"]],
@@ -645,7 +835,9 @@ def run(ctx):
                         + (["strace syscall injection"] if strace_ev else []),
     })
     if not_triggered:
-        raise core.MachineryError("pre-write failure scenarios that did not fail as intended: %s" % not_triggered[:5])
+        # a scenario built to fail before writing did not fail (or failed with another message): the statement says
+        # nothing about such a run; it is counted, never an alarm and never hidden behind a machinery failure
+        print("note: %d pre-write failure scenarios did not fail as intended: %s" % (len(not_triggered), not_triggered[:4]))
     ctx.assumptions += [
         "one target file per run; yaml-merge writes to --output or to --overwrite = its first input; single-document JSON output",
         "an injected fault is an OSError (ENOSPC) raised by the k-th intercepted call, at most one per run; the AssertionError "
@@ -663,7 +855,7 @@ def replay(path):
     os.makedirs(scratch, exist_ok=True)
     try:
         if rp.get("layer") == "strace":
-            r = _strace_run((sc, rp["inject"], scratch))
+            r = _strace_run((sc, rp["inject"], scratch, None))
             bad = judge_strace(sc, r)
             print(json.dumps({k: r[k] for k in ("status", "inject", "facts", "stderr")}, indent=1)[:3000])
         else:
